@@ -892,6 +892,19 @@ def run_case(case, obs):
                         continue
                     sc_ = max(F[0]["mmax"], F[0]["xmax"] * b["un_amp"])
                     obs.close("inverse_normalized_eq_default", vb, va, TOL, scale=sc_, tags=t4)
+            # a SCALAR mode selection (scores.sel(mode=m)): the norm of that one mode applies, nothing is broadcast
+            if k3 >= 2 and not ds_i[0]:
+                m_sel = s3.mode.values[-1]
+                a1 = _call(obs, "inverse_transform(s.sel(mode=m))", lambda: fitted.inverse_transform(s3.sel(mode=m_sel)), t4)
+                b1 = _call(obs, "inverse_transform(s.sel(mode=m)/norm,normalized=True)", lambda: fitted.inverse_transform((s3 / nda).sel(mode=m_sel), normalized=True), t4)
+                if a1 is not None and b1 is not None:
+                    for b in F[0]["blocks"]:
+                        va = block_values(obs, "inv_s1", a1[0], F[0], b, sdims, s_co, t4)
+                        vb = block_values(obs, "inv_s1_norm", b1[0], F[0], b, sdims, s_co, t4)
+                        if va is None or vb is None:
+                            continue
+                        sc_ = max(F[0]["mmax"], F[0]["xmax"] * b["un_amp"])
+                        obs.close("inverse_normalized_scalar_mode_eq_default", vb, va, TOL, scale=sc_, tags=t4)
 
 
 def _rt_ok(da, sdims, k):
